@@ -474,4 +474,15 @@ PLANS["C02"] = {
     "assumptions": ["dump via public read API", "heads only insert into fresh Out relations, so ids are stable across the run"],
 }
 
+PLANS["C18"] = {
+    "jobs": simple_jobs("c18", 4000, 200000, par_n=(40, 6000)),
+    "level": "exploration",
+    "technique": "event-log monitor on an instrumented Scheduler: conservation accounting of offered/chosen/residual matches per step, nested-loop match oracle on the pre-step dump, probe relations for applied actions, differential vs built-in stepping and saturation, C04 invariants after every step",
+    "level_text": "Generated programs are stepped through an instrumented scheduler under six policies (all, none-then-all, random subsets incl. double choose, one at a time, first-n back-off, never-reseek) while the harness writes unions / inserts / subsumes between steps so that held-back matches go stale. Per step: unchosen matches must be offered again (multiset, modulo current equalities); every oracle match of the body on the pre-step database must have been offered whenever the scheduler asked to seek; every fresh offer must be an oracle match (none rests on a subsumed row); each head carries a probe insert and the probe must equal probe_before + chosen under post-step ids; C04 invariants; choose-all = built-in (run rs 1) on a sibling; fair policies = built-in saturation; rulesets and schedulers intact after a failing step.",
+    "level_note": "Match oracle = model.rs nested loops over the engine's own pre-step dump. Rule bodies are written `(= (C ..) v)` because Match::get_value looks variables up by the name that survives rule canonicalisation. Rules build no new terms, so programs are confluent and terminating, which is what makes the saturation comparison meaningful.",
+    "floors": {"quick": {"steps": 20000, "probe_checks": 40000, "completeness_checks": 40000, "residual_matches_tracked": 5000, "choose_all_vs_builtin": 4000, "saturation_comparisons": 1000, "programs_with_delayed_application": 600, "failing_steps_followed_up": 200},
+               "thorough": {"steps": 1000000, "probe_checks": 2000000, "completeness_checks": 2000000, "residual_matches_tracked": 250000, "choose_all_vs_builtin": 200000, "saturation_comparisons": 75000, "programs_with_delayed_application": 40000, "failing_steps_followed_up": 10000}},
+    "assumptions": ["dump via public read API", "Scheduler trait is the public egglog::scheduler API"],
+}
+
 NOT_APPLICABLE = {}
